@@ -1157,3 +1157,38 @@ pub fn stream_data_arm_glue_l0_n6_size_reached() {
 pub fn stream_data_arm_glue_l4_n6_size_reached() {
     data_arm_glue::<4, 6, 18446744073709551615, 0, false, 0>()
 }
+
+
+//@ harness props=C05,C15,C16,C08 tier=quick unwind=20 mem_gb=4 timeout=300 native=no
+//@ bound: Stream still in the header state with k staged bytes (k symbolic in 0..=17, contents symbolic), any options: finish succeeds with empty output iff nothing at all was written; any partial header is an error (what the one-shot decoder reports as a short header)
+#[cfg_attr(kani, kani::proof)]
+#[cfg_attr(kani, kani::stub(std::fmt::format, crate::verif_common::stub_format))]
+#[cfg_attr(kani, kani::stub(std::io::Error::is_interrupted, crate::verif_common::stub_not_interrupted))]
+pub fn stream_finish_in_header_state() {
+    let mut t = Tape::<32>::new();
+    let staged: [u8; 18] = t.bytes::<18>();
+    let k = (t.u8() % 18) as usize;
+    let allow = t.bool();
+    let mut s = Stream::new_with_options(&opts(allow, None), CountSink::new());
+    {
+        let b = s.tmp.get_mut();
+        let mut i = 0;
+        while i < 18 {
+            b[i] = staged[i];
+            i += 1;
+        }
+    }
+    s.tmp.set_position(k as u64);
+    let r = s.finish();
+    let ok = r.is_ok();
+    match &r {
+        Ok(out) => {
+            vassert!(out.bytes == 0, "finish: zero total input finishes with empty output");
+        }
+        Err(_) => {}
+    }
+    forget(r);
+    vassert!(ok == (k == 0), "finish: in the header state only zero total input finishes successfully; a partial header (1..17 bytes) is an error");
+    vcover!(k == 1, "one_byte_staged");
+    vcover!(k == 0, "nothing_staged");
+}
